@@ -34,6 +34,10 @@ func runC15(c *Ctx) {
 	c.Rule("R5", "shared codec handle; missing entry = ErrLogNotFound by nil-ness", 2)
 	c.Rule("R6", "cgo wrapper (syntax-level): a key is reported absent only when the C value pointer is NULL", 2)
 	wrapperAbsence(c, "R6")
+	c.Rule("R7", "keys and values are copied out of native slices into buffers sized by the same slice", 1)
+	nativeSliceCopies(c, "R7", []string{"consensus"})
+	freshWriteBatches(c, "R4", []string{"consensus"})
+	readOptionsSeeDeletions(c, "R2")
 	logT, ok1 := consensusTableConst(p, "logTable")
 	stableT, ok2 := consensusTableConst(p, "stableTable")
 	if !ok1 || !ok2 {
@@ -99,7 +103,8 @@ func runC15(c *Ctx) {
 		fn := m("StoreLog")
 		v, _ := keyArg(fn, "PutCF", 4)
 		okV := v != nil && v.Has(func(x *Term) bool {
-			return x.Op == "call" && x.Fn != nil && strings.HasPrefix(canonFuncName(x.Fn), "encode") && x.Args[1].IsParam(fn, 1) || x.Op == "encoded" && x.Args[0].IsParam(fn, 1)
+			// the bytes stored are the encoding of the raft.Log itself (not of a projection that may drop fields)
+			return x.Op == "encoded" && x.Args[0].IsParam(fn, 1)
 		})
 		c.Check(isBE(t, isParamField(fn, 1, "Index")) && okV, "R4", "StoreLog", at.Pos(), "put(BE64(log.Index), encode(log))", "StoreLog puts key "+t.String()+" / value not the encoding of the same entry")
 	} else {
@@ -130,7 +135,7 @@ func runC15(c *Ctx) {
 				why = append(why, "key is "+k.String()+", expected BE64(entry.Index)")
 			}
 			if !v.Has(func(x *Term) bool {
-				return x.Op == "call" && x.Fn != nil && strings.HasPrefix(canonFuncName(x.Fn), "encode") && isElem(x.Args[1]) || x.Op == "encoded" && isElem(x.Args[0])
+				return x.Op == "encoded" && isElem(x.Args[0])
 			}) {
 				why = append(why, "value is "+v.String()+", expected the encoding of the same entry")
 			}
